@@ -456,3 +456,10 @@ def c07_f(ctx):
                   'same model, discrepancy, outputs and batch size',
                   'the inner Rejection sampler is configured differently from the SMC sampler',
                   fn=srr, node=cs[0] if cs else srr.node)
+
+
+@obligation('C07-g', 'T7', 'proposals are named column by column in parameter_names order',
+            floor=2, necessary='another pairing assigns a proposed value to another parameter')
+def c07_g(ctx):
+    from .C11 import check_column_helpers
+    check_column_helpers(ctx)
